@@ -203,7 +203,7 @@ def c06_median_pick : String := "median <= weightedTime.Weight"
 def c06_proposal_budget_vals : Bool := true
 
 /-- order state/validation.go validateBlock -/
-def c06_validate_order : List String := ["ValidateBasic", "HashConsensusParams", "VerifyCommit", "HasAddress", "MedianTime", "ByteSize"]
+def c06_validate_order : List String := ["ValidateBasic", "HashConsensusParams", "VerifyCommit", "HasAddress", "After", "MedianTime", "ByteSize"]
 
 /-- const types/validator_set.go MaxTotalVotingPower -/
 def c07_MaxTotalVotingPower : Int := 1152921504606846975
